@@ -203,6 +203,15 @@ fn zlib(data: &[u8], level: u32) -> Vec<u8> {
     e.finish().unwrap()
 }
 
+// the real zlib told to use a window of 2^wbits bytes (deflateInit2, wbits 9..15): it then writes the header
+// CINFO = wbits - 8 (first byte 18, 28, ... 78) and keeps its distances inside that window
+fn zlib_wb(data: &[u8], level: u32, wbits: u8) -> Vec<u8> {
+    let c = flate2::Compress::new_with_window_bits(flate2::Compression::new(level), true, wbits);
+    let mut e = flate2::write::ZlibEncoder::new_with_compress(Vec::new(), c);
+    e.write_all(data).unwrap();
+    e.finish().unwrap()
+}
+
 fn payload(r: &mut Rng, n: usize, kind: usize) -> Vec<u8> {
     match kind {
         0 => r.bytes(n),                                         // incompressible
@@ -398,11 +407,13 @@ fn gen(seed: u64, n: usize, tier: &str, emit: &mut dyn FnMut(String)) {
         sizes.push(1 << 20);
     }
     let mut ctr = 0usize;
+    // level: Some(l) = every Flate layer at level l % 16, with a window of 2^(l / 16) bytes if l >= 16
     let mut one = |r: &mut Rng, size: usize, kind: usize, chain: Vec<usize>, level: Option<u32>, eol: usize| {
         let p = payload(r, size, kind);
         let mut data = p.clone();
         for f in chain.iter().rev() {
             data = match (*f, level) {
+                (0, Some(l)) if l >= 16 => zlib_wb(&data, l % 16, (l / 16) as u8),
                 (0, Some(l)) => zlib(&data, l),
                 _ => encode_layer(*f, &data, r),
             };
@@ -448,6 +459,26 @@ fn gen(seed: u64, n: usize, tier: &str, emit: &mut dyn FnMut(String)) {
                 continue
             }
             one(&mut r, s, (si + level as usize) % 5, vec![0], Some(level), (si + level as usize) % 4);
+        }
+    }
+    // the encoder's WINDOW varied (zlib headers other than 78 xx): every window 2^9 .. 2^15 x levels {0, 1, 6, 9} (the four
+    // FLEVEL values) x sizes below, at and above the window, Flate alone and inside chains
+    for wbits in 9 ..= 15u32 {
+        for (li, &level) in [0u32, 1, 6, 9].iter().enumerate() {
+            let w = 1usize << wbits;
+            let szs: [usize; 5] = [5, 300, w - 1, w + 1, 3 * w + 7];
+            for (si, &s) in szs.iter().enumerate() {
+                if !thorough && s > 40_000 {
+                    continue
+                }
+                let k = wbits as usize + li + si;
+                let chain = match k % 4 {
+                    0 => vec![1, 0],
+                    1 => vec![0, 2],
+                    _ => vec![0],
+                };
+                one(&mut r, s, 1 + k % 4, chain, Some(16 * wbits + level), k % 4);
+            }
         }
     }
     // random chains up to length 3
